@@ -223,7 +223,16 @@ func (x *Exec) callFunc(st *State, fr *Frame, retTo ssa.Value, fn *ssa.Function,
 		}
 	}
 	isBound := strings.HasSuffix(fn.Name(), "$bound") || strings.HasSuffix(fn.Name(), "$thunk")
-	if c := x.specs.Contracts[key]; c != nil && !isBound && !(len(st.frames) == 1 && false) {
+	ckey := key
+	if x.curContract != nil {
+		if sk, ok := x.curContract.UseScen[key]; ok {
+			if x.specs.Contracts[sk] == nil {
+				panic(unsupported{"uses-scenario " + sk + ": no such contract"})
+			}
+			ckey = sk
+		}
+	}
+	if c := x.specs.Contracts[ckey]; c != nil && !isBound && !(len(st.frames) == 1 && false) {
 		sig := fn.Signature
 		if csig != nil && csig.Results().Len() == sig.Results().Len() {
 			sig = csig
@@ -436,6 +445,9 @@ func (x *Exec) applyContract(st *State, fr *Frame, retTo ssa.Value, c *Contract,
 		pe := mkEnv(ps)
 		pv := ps.fresh("panic_"+sanitize(key), sAny, nil)
 		ps.assume(x.panicKind(ps, pv, pc.PKind))
+		if c.Callback && x.curContract != nil && x.curContract.CbSkip != "" {
+			ps.assume(x.panicKind(ps, pv, "invalidData")) // scenario hypothesis: the callback gives up
+		}
 		pe.panicVal = &pv
 		cond := tTrue
 		if !pc.Internal {
@@ -479,6 +491,10 @@ func (x *Exec) applyContract(st *State, fr *Frame, retTo ssa.Value, c *Contract,
 		out = append(out, ps)
 	}
 	// normal outcome
+	if c.Callback && x.curContract != nil && x.curContract.CbSkip != "" {
+		st.dead = true // scenario hypothesis: the callback never returns normally
+		return out
+	}
 	ne := mkEnv(st)
 	for _, loc := range resultLocs {
 		x.havocLoc(st, ne, loc, c)
